@@ -208,9 +208,9 @@ PROPS = {
         title="Truncated files: complete records survive and the cut is visible",
         lean_modules=["Gowarc.Props.C06"],
         n_quick=25, n_thorough=300,
-        required_theorems=["C06_survive", "C06_survive_cut", "C06_short_tail", "C06_cut_version_line", "readLoop_succ"],
+        required_theorems=["C06_survive", "C06_survive_cut", "C06_short_tail", "C06_cut_version_line", "C06_trailer_or_finding", "readLoop_succ"],
         model_assumptions=["C06_survive is relative to the codec law `ReadsAs` (each complete member reads as a clean record for every continuation); that gowarc's serialization satisfies it is C01's composition, here validated per file (`wf=t`: implementation and model read the uncut file as clean records at the generated boundaries)",
-                           "visibility is proved for the reader's own framing (fewer than five bytes left; cut inside the version line); cuts inside header lines, block, trailer and gzip members are decided by the exhaustive enumeration of every cut on implementation and model",
+                           "visibility is proved for the reader's own framing (fewer than five bytes left; cut inside the version line) and, for every header and stream, behind the header section (C06_trailer_or_finding: a record returned without error either had its complete trailer behind the declared block or carries the trailer finding; under fail the error); what a cut inside the header lines does before that point, and gzip members, are decided by the exhaustive enumeration of every cut on implementation and model",
                            "gzip (klauspost/compress) is the oracle Ω.gz: for every cut the harness hands the model the decompressor's verdict for each member (content prefix, clean/damaged end, compressed bytes consumed)",
                            "n_quick / n_thorough count FILES; every prefix 0..length of every file is read (quick about 20 000 prefixes)"],
         design_ref="DESIGN.md section 5, C06",
